@@ -194,7 +194,17 @@ func (e *Env) c05GenStorableExp(maxBitsA int) c05Exp {
 		p.ExponentialCalculation = inflationtypes.ExponentialCalculation{A: c05Dec(x.A), R: c05Dec(x.R), C: c05Dec(x.C),
 			BondingTarget: c05Dec(x.Target), MaxVariance: c05Dec(x.MaxVar)}
 		if p.Validate() == nil {
-			return x
+			// The theorems and the model assume that bank supply and balances stay below 2^256 (stated in the property
+			// configuration): a provision of the order of 2^250 tokens per epoch is accepted by the validator but makes the
+			// bank's supply overflow in MintCoins after a handful of epochs, which the model (unbounded integers) does not
+			// exhibit.  Keep a history's total minting below 2^240: worst-case provision (period 0, one epoch per period,
+			// bonded ratio 0) times the longest history.
+			worst := inflationtypes.CalculateEpochMintProvision(p, 0, 1, sdkmath.LegacyZeroDec()).TruncateInt().BigInt()
+			if new(big.Int).Mul(worst, big.NewInt(4096)).BitLen() <= 240 {
+				return x
+			}
+			e.Stats.Count("generator:exp-would-overflow-bank-supply(redrawn)")
+			continue
 		}
 		e.Stats.Count("generator:exp-rejected-by-validator(redrawn)")
 	}
@@ -569,6 +579,19 @@ func c05GenCase(e *Env, suite string, kase *c05Case, day int64) {
 	}
 	zero := TimeNs(time.Time{}).String()
 	mk := func(id string, d int64, cur int64) c05Epoch {
+		if cur > 0 {
+			// the start time of an epoch record that has counted `cur` epochs lies (cur-1) durations back; it must stay
+			// representable (protobuf timestamps begin at year 1): with the thousands of periods of the thorough tier a
+			// day-long duration would not, so the duration is shortened for such records
+			span := new(big.Int).Sub(t0, TimeNs(time.Time{}))
+			maxD := new(big.Int).Div(span, big.NewInt(cur+2))
+			if maxD.IsInt64() && maxD.Int64() < d {
+				d = maxD.Int64()
+				if d < 1 {
+					d = 1
+				}
+			}
+		}
 		ep := c05Epoch{ID: id, DurNs: d, CurStart: zero}
 		if cur > 0 {
 			start := new(big.Int).Sub(t0, new(big.Int).Mul(big.NewInt(cur-1), big.NewInt(d)))
